@@ -57,6 +57,13 @@ def _events(args):
                 o = E.outcome(lambda: read_bed12(str(obj.to_bed12(name=nm, chromosome_relative_coordinates=w is None))))
                 ev.append(["bed", [blocks, st], [cds, st] if (cds and kind == "tx") else [[], "e"], w[0] if w else 0,
                            w is not None, want, o])
+                if rnd.random() < 0.5:
+                    # the same object exported again (possibly after an export in the other mode): the record is the same
+                    if w is not None and rnd.random() < 0.5:
+                        E.outcome(lambda: str(obj.to_bed12()))
+                    o2 = E.outcome(lambda: read_bed12(str(obj.to_bed12(name=nm, chromosome_relative_coordinates=w is None))))
+                    ev.append(["bed", [blocks, st], [cds, st] if (cds and kind == "tx") else [[], "e"], w[0] if w else 0,
+                               w is not None, want, o2])
     return ev
 
 
